@@ -1,7 +1,7 @@
 (* C13 -- searching leaves the game state untouched and is reproducible (model level).
    The history is threaded through the model exactly as the Rust pushes and pops it; the position is passed by value. *)
-From Coq Require Import NArith ZArith List Bool.
-From Rawr Require Import Consts Bits Magic Position MoveGen MakeMove Eval TT Search SearchFacts FuelFacts.
+From Coq Require Import NArith ZArith List Bool String.
+From Rawr Require Import Consts Bits Magic Position MoveGen MakeMove Eval TT Search SearchFacts FuelFacts Uci SessionSearch.
 Local Open Scope Z_scope.
 
 (* whatever the stop predicate (depth, node or time limit), window, depth, table and history: a search that returns
@@ -27,7 +27,15 @@ Theorem C13_result_does_not_depend_on_fuel : forall (stopf : Stats -> bool) f f'
   root stopf f p hist tt = Some r -> root stopf f' p hist tt = Some r.
 Proof. exact root_fuel_mono. Qed.
 
+(* at the level of the command loop: a go command of any kind, however the search ends, leaves the position, the game history,
+   the Hash option and the Chess960 flag as they were (only the table may change) *)
+Theorem C13_go_leaves_the_game_state_alone : forall mode s args s' o,
+  step mode s (lit "go"%string :: args) = Cont s' o ->
+  u_pos s' = u_pos s /\ u_hist s' = u_hist s /\ u_hash s' = u_hash s /\ u_frc s' = u_frc s.
+Proof. exact step_go_keeps_game. Qed.
+
 Print Assumptions C13_negamax_keeps_history.
 Print Assumptions C13_root_keeps_history.
 Print Assumptions C13_search_deterministic.
 Print Assumptions C13_result_does_not_depend_on_fuel.
+Print Assumptions C13_go_leaves_the_game_state_alone.
